@@ -4,34 +4,50 @@
 (* (include/unifex/async_auto_reset_event.hpp,                             *)
 (* source/async_auto_reset_event.cpp).                                     *)
 (*                                                                         *)
-(* st = state_ (U unset / S set / D done), protected by mutex_: set(),     *)
-(* set_done() and try_reset() are atomic (the driver takes no schedule     *)
-(* point while the mutex is held).  ev = the inner v1 manual-reset event   *)
-(* (0 unset, SIG signalled, n = the operation of next() n is the waiter).  *)
+(* st = state_ (U unset / S set / D done) and mtx = mutex_ (0 free, t =    *)
+(* held by thread t).  set(), set_done() and try_reset() are modelled as   *)
+(* lock ; steps ; unlock, with the inner v1 manual-reset event as separate *)
+(* state: ev (0 unset, SIG signalled, n = the operation of next() n is the *)
+(* waiter).  The atomicity of state_ and event_ is therefore not assumed:  *)
+(* it is the invariant InnerConsistentWhenFree, which holds because the    *)
+(* inner event_.set()/reset() happen while the mutex is held.  The         *)
+(* constant Variant = "notify_outside" is the seeded-bad design in which   *)
+(* set()/set_done() call event_.set() after unlocking; TLC must refute it  *)
+(* (AutoResetEventBad.cfg).                                                *)
 (* next() = register a stop callback (calls set_done()), async_wait on the *)
 (* inner event (start_or_wait CAS loop, outside the mutex), and when woken *)
-(* - on the receiver's scheduler - destroy the stop callback and           *)
-(* try_reset(): S -> U + value, D -> done.                                 *)
+(* - on the receiver's scheduler - destroy the stop callback (waits while  *)
+(* it is executing on another thread) and try_reset(): S -> U + value,     *)
+(* D -> done.                                                              *)
 (* The stream has one consumer: a thread executes `next n` by starting     *)
 (* next() and then draining its scheduler until that next() completed (or  *)
 (* every other thread has finished: it then leaves the next() pending).    *)
-(* Schedule points: "op", "auto.wait", "v1.sow_cas", "auto.await" (spin),  *)
-(* "auto.cont".                                                            *)
+(* Schedule points: "op"; the harness's cooperative mutex: "h.lock" (right *)
+(* after acquiring), "h.mtx" (contended, spin), "h.unlock" (right after    *)
+(* releasing); "v1.set_pop" (inner set(), before resuming the waiter);     *)
+(* "auto.wait", "v1.sow_cas", "auto.await" (spin), "auto.cont",            *)
+(* "auto.dereg_wait" (spin in the stop callback's destructor).             *)
 (***************************************************************************)
 EXTENDS Integers, Sequences, FiniteSets, TLC
 
-CONSTANTS Threads, Nexts, Scheds, Scenarios
+CONSTANTS Threads, Nexts, Scheds, Scenarios, Variant
 \* op: <<"set">> | <<"setdone">> | <<"stop", n>> | <<"next", n>>
 SIG == 99
 
-VARIABLES scn, st, ev, cbk, src, q, pc, ip, top, fin, bad,
+VARIABLES scn, st, ev, mtx,
+          sec,        \* [Threads -> ""|"set"|"sd"|"stopsd"|"nextsd"|"reset"] the mutex section the thread is executing
+          todo,       \* [Threads -> BOOLEAN] (bad variant) event_.set() still to be called after the unlock
+          rv,         \* [Threads -> 0|1|2] try_reset()'s result (1 true -> value, 2 false -> done)
+          cbk, cbExec, src, q, pc, ip, top, fin, bad,
           res,        \* [Nexts -> 0 | 1 value | 2 done] completion delivered
           phase,      \* [Nexts -> "no"|"started"]
           effSets,    \* number of set() calls that found the event not done
           values,     \* number of next() value completions
           wasDone,    \* st has been D
+          doneReq,    \* a set_done() or a stop request has begun
           lastT, lastPc, lastEv
-vars == <<scn, st, ev, cbk, src, q, pc, ip, top, fin, bad, res, phase, effSets, values, wasDone>>
+vars == <<scn, st, ev, mtx, sec, todo, rv, cbk, cbExec, src, q, pc, ip, top, fin, bad, res, phase, effSets, values,
+          wasDone, doneReq>>
 ghosts == <<lastT, lastPc, lastEv>>
 
 Ev(e, t, w, r, c) == [e |-> e, t |-> t, w |-> w, r |-> r, c |-> c]
@@ -44,76 +60,136 @@ OthersFin(t) == \A u \in Threads \ {t} : pc[u] = "fin"
 Init ==
   /\ scn \in Scenarios
   /\ st = (IF scn.init = 1 THEN "S" ELSE "U") /\ ev = (IF scn.init = 1 THEN SIG ELSE 0)
-  /\ cbk = [n \in Nexts |-> "none"] /\ src = [n \in Nexts |-> FALSE]
+  /\ mtx = 0 /\ sec = [t \in Threads |-> ""] /\ todo = [t \in Threads |-> FALSE] /\ rv = [t \in Threads |-> 0]
+  /\ cbk = [n \in Nexts |-> "none"] /\ cbExec = [n \in Nexts |-> 0] /\ src = [n \in Nexts |-> FALSE]
   /\ q = [s \in Scheds |-> <<>>]
   /\ pc = [t \in Threads |-> IF Len(scn.prog[t]) = 0 THEN "fin" ELSE "op"]
   /\ ip = [t \in Threads |-> 1] /\ top = [t \in Threads |-> 0]
   /\ fin = FALSE /\ bad = "ok"
   /\ res = [n \in Nexts |-> 0] /\ phase = [n \in Nexts |-> "no"]
-  /\ effSets = 0 /\ values = 0 /\ wasDone = FALSE
+  /\ effSets = 0 /\ values = 0 /\ wasDone = FALSE /\ doneReq = FALSE
   /\ lastT = 0 /\ lastPc = "" /\ lastEv = <<>>
 
 Advance(t) == /\ ip' = [ip EXCEPT ![t] = @ + 1]
               /\ pc' = [pc EXCEPT ![t] = IF ip[t] + 1 > Len(Prog(t)) THEN "fin" ELSE "op"]
 Stay(t, where) == /\ ip' = ip /\ pc' = [pc EXCEPT ![t] = where]
 
-\* inner event_.set(): exchange(SIG) and resume the waiter (schedule it on its receiver's scheduler)
-InnerSet == /\ ev' = SIG
-            /\ q' = IF ev \in Nexts THEN [q EXCEPT ![SchedOf(ev)] = Append(@, ev)] ELSE q
+\* ---- the mutex: std::lock_guard lock{mutex_}   (owns: mtx, sec, pc, ip)
+TryLock(t, kind) ==
+  /\ sec' = [sec EXCEPT ![t] = kind]
+  /\ IF mtx = 0 THEN mtx' = t /\ Stay(t, "h.lock") ELSE mtx' = mtx /\ Stay(t, "h.mtx")
+MtxSpin(t) ==
+  /\ mtx = 0 /\ mtx' = t /\ Stay(t, "h.lock") /\ lastEv' = <<>>
+  /\ UNCHANGED <<st, ev, sec, todo, rv, cbk, cbExec, src, q, top, bad, res, phase, effSets, values, doneReq>>
 
+\* ---- what follows a finished section   (owns: pc, ip, lastEv, cbExec, res, sec)
+After(t) ==
+  /\ sec' = [sec EXCEPT ![t] = ""]
+  /\ CASE sec[t] = "set" -> Advance(t) /\ lastEv' = <<Ev("SetE", t, 0, -1, 0)>> /\ UNCHANGED <<cbExec, res>>
+       [] sec[t] = "sd" -> Advance(t) /\ lastEv' = <<Ev("SdE", t, 0, -1, 0)>> /\ UNCHANGED <<cbExec, res>>
+       [] sec[t] = "stopsd" -> /\ Advance(t) /\ lastEv' = <<>> /\ res' = res
+                               /\ cbExec' = [cbExec EXCEPT ![Op(t)[2]] = 0]           \* the stop callback returns
+       [] sec[t] = "nextsd" -> Stay(t, "auto.wait") /\ lastEv' = <<>> /\ UNCHANGED <<cbExec, res>>
+       [] sec[t] = "reset" -> LET n == Op(t)[2] IN
+                              /\ Advance(t) /\ res' = [res EXCEPT ![n] = rv[t]] /\ cbExec' = cbExec
+                              /\ lastEv' = <<Ev("Done", t, n, rv[t], SchedOf(n))>>
+
+\* ---- API entries
 SetOp(t) ==
-  /\ IF st # "D" THEN st' = "S" /\ InnerSet /\ effSets' = effSets + 1
-     ELSE UNCHANGED <<st, ev, q, effSets>>
-  /\ Advance(t) /\ lastEv' = <<Ev("SetB", t, 0, -1, 0), Ev("SetE", t, 0, -1, 0)>>
-  /\ UNCHANGED <<cbk, src, top, bad, res, phase, values>>
+  /\ TryLock(t, "set") /\ lastEv' = <<Ev("SetB", t, 0, -1, 0)>>
+  /\ UNCHANGED <<st, ev, todo, rv, cbk, cbExec, src, q, top, bad, res, phase, effSets, values, doneReq>>
 SetDoneOp(t) ==
-  /\ st' = "D" /\ InnerSet
-  /\ Advance(t) /\ lastEv' = <<Ev("SdB", t, 0, -1, 0), Ev("SdE", t, 0, -1, 0)>>
-  /\ UNCHANGED <<cbk, src, top, bad, res, phase, effSets, values>>
+  /\ TryLock(t, "sd") /\ lastEv' = <<Ev("SdB", t, 0, -1, 0)>> /\ doneReq' = TRUE
+  /\ UNCHANGED <<st, ev, todo, rv, cbk, cbExec, src, q, top, bad, res, phase, effSets, values>>
+\* request_stop() on next() n's stop source: the registered callback calls set_done() on this thread
 StopOp(t, n) ==
-  /\ src' = [src EXCEPT ![n] = TRUE]
-  /\ IF cbk[n] = "reg" /\ ~src[n] THEN st' = "D" /\ InnerSet ELSE UNCHANGED <<st, ev, q>>
-  /\ Advance(t) /\ lastEv' = <<Ev("Stop", t, n, -1, 0)>>
-  /\ UNCHANGED <<cbk, top, bad, res, phase, effSets, values>>
-
+  /\ src' = [src EXCEPT ![n] = TRUE] /\ doneReq' = TRUE
+  /\ IF cbk[n] = "reg" /\ ~src[n]
+     THEN cbExec' = [cbExec EXCEPT ![n] = t] /\ TryLock(t, "stopsd")
+     ELSE Advance(t) /\ UNCHANGED <<cbExec, mtx, sec>>
+  /\ lastEv' = <<Ev("Stop", t, n, -1, 0)>>
+  /\ UNCHANGED <<st, ev, todo, rv, cbk, q, top, bad, res, phase, effSets, values>>
 NextOp(t, n) ==
   /\ phase[n] = "no"
   /\ phase' = [phase EXCEPT ![n] = "started"]
   /\ cbk' = [cbk EXCEPT ![n] = "reg"]
-  /\ IF src[n] THEN st' = "D" /\ InnerSet ELSE UNCHANGED <<st, ev, q>>     \* the callback runs inline
-  /\ Stay(t, "auto.wait") /\ lastEv' = <<Ev("NextB", t, n, -1, SchedOf(n))>>
-  /\ UNCHANGED <<src, top, bad, res, effSets, values>>
+  /\ IF src[n] THEN TryLock(t, "nextsd")                            \* the callback runs inline: set_done()
+     ELSE Stay(t, "auto.wait") /\ UNCHANGED <<mtx, sec>>
+  /\ lastEv' = <<Ev("NextB", t, n, -1, SchedOf(n))>>
+  /\ UNCHANGED <<st, ev, todo, rv, cbExec, src, q, top, bad, res, effSets, values, doneReq>>
+
+\* ---- inside the mutex ("h.lock" = just acquired)
+\* event_.set() of the inner event: exchange(SIG); a waiter found there is resumed after the "v1.set_pop" point
+Locked(t) ==
+  LET k == sec[t]
+      noop == k = "set" /\ st = "D"
+      notifyIn == ~noop /\ k # "reset" /\ Variant = "ok"
+      notifyOut == ~noop /\ k # "reset" /\ Variant # "ok"
+  IN
+  /\ st' = IF k = "reset" THEN (IF st = "S" THEN "U" ELSE st) ELSE IF noop THEN st ELSE IF k = "set" THEN "S" ELSE "D"
+  /\ effSets' = IF k = "set" /\ ~noop THEN effSets + 1 ELSE effSets
+  /\ rv' = IF k = "reset" THEN [rv EXCEPT ![t] = IF st = "S" THEN 1 ELSE 2] ELSE rv
+  /\ values' = IF k = "reset" /\ st = "S" THEN values + 1 ELSE values
+  /\ bad' = IF k = "reset" /\ st = "U" THEN "try_reset while unset" ELSE bad
+  /\ ev' = IF k = "reset" THEN (IF st = "S" /\ ev = SIG THEN 0 ELSE ev) ELSE IF notifyIn THEN SIG ELSE ev
+  /\ todo' = IF notifyOut THEN [todo EXCEPT ![t] = TRUE] ELSE todo
+  /\ IF notifyIn /\ ev \in Nexts
+     THEN /\ top' = [top EXCEPT ![t] = ev] /\ mtx' = mtx /\ Stay(t, "v1.set_pop")
+     ELSE /\ top' = top /\ mtx' = 0 /\ Stay(t, "h.unlock")
+  /\ lastEv' = <<>>
+  /\ UNCHANGED <<sec, cbk, cbExec, src, q, res, phase, doneReq>>
+
+\* resume the popped waiter: schedule() on its receiver's scheduler
+SetPop(t) ==
+  /\ q' = [q EXCEPT ![SchedOf(top[t])] = Append(@, top[t])]
+  /\ IF mtx = t
+     THEN mtx' = 0 /\ Stay(t, "h.unlock") /\ lastEv' = <<>> /\ UNCHANGED <<sec, cbExec, res>>
+     ELSE mtx' = mtx /\ After(t)
+  /\ UNCHANGED <<st, ev, todo, rv, cbk, src, top, bad, phase, effSets, values, doneReq>>
+
+\* just after the unlock
+Unlocked(t) ==
+  IF todo[t]
+  THEN /\ todo' = [todo EXCEPT ![t] = FALSE] /\ ev' = SIG          \* (bad variant) the late event_.set()
+       /\ IF ev \in Nexts
+          THEN top' = [top EXCEPT ![t] = ev] /\ Stay(t, "v1.set_pop") /\ lastEv' = <<>> /\ UNCHANGED <<sec, cbExec, res>>
+          ELSE top' = top /\ After(t)
+       /\ UNCHANGED <<st, mtx, rv, cbk, src, q, bad, phase, effSets, values, doneReq>>
+  ELSE /\ After(t)
+       /\ UNCHANGED <<st, ev, mtx, todo, rv, cbk, src, q, top, bad, phase, effSets, values, doneReq>>
+
+\* ---- next(): async_wait on the inner event
 AutoWait(t, n) ==
   /\ top' = [top EXCEPT ![t] = ev] /\ Stay(t, "v1.sow_cas") /\ lastEv' = <<>>
-  /\ UNCHANGED <<st, ev, cbk, src, q, bad, res, phase, effSets, values>>
+  /\ UNCHANGED <<st, ev, mtx, sec, todo, rv, cbk, cbExec, src, q, bad, res, phase, effSets, values, doneReq>>
 \* after start() returned the consumer drains: a continuation that is already queued starts right away
 SowCas(t, n) ==
-  IF top[t] = SIG
-  THEN /\ Stay(t, "auto.cont") /\ lastEv' = <<Ev("NextE", t, n, -1, 0)>>      \* scheduled and immediately dequeued
-       /\ UNCHANGED <<st, ev, cbk, src, q, top, bad, res, phase, effSets, values>>
-  ELSE IF ev = top[t]
-  THEN /\ ev' = n /\ lastEv' = <<Ev("NextE", t, n, -1, 0)>>
-       /\ IF OthersFin(t) THEN ip' = ip /\ pc' = [pc EXCEPT ![t] = "fin"] ELSE Stay(t, "auto.await")
-       /\ UNCHANGED <<st, cbk, src, q, top, bad, res, phase, effSets, values>>
-  ELSE /\ top' = [top EXCEPT ![t] = ev] /\ Stay(t, "v1.sow_cas") /\ lastEv' = <<>>
-       /\ UNCHANGED <<st, ev, cbk, src, q, bad, res, phase, effSets, values>>
+  /\ IF top[t] = SIG
+     THEN /\ Stay(t, "auto.cont") /\ lastEv' = <<Ev("NextE", t, n, -1, 0)>>      \* scheduled and immediately dequeued
+          /\ UNCHANGED <<ev, top>>
+     ELSE IF ev = top[t]
+     THEN /\ ev' = n /\ lastEv' = <<Ev("NextE", t, n, -1, 0)>> /\ top' = top
+          /\ IF OthersFin(t) THEN ip' = ip /\ pc' = [pc EXCEPT ![t] = "fin"] ELSE Stay(t, "auto.await")
+     ELSE /\ top' = [top EXCEPT ![t] = ev] /\ Stay(t, "v1.sow_cas") /\ lastEv' = <<>> /\ ev' = ev
+  /\ UNCHANGED <<st, mtx, sec, todo, rv, cbk, cbExec, src, q, bad, res, phase, effSets, values, doneReq>>
 AutoAwait(t, n) ==
   /\ Queued(n) \/ OthersFin(t)
   /\ IF Queued(n)
      THEN /\ q' = [s \in Scheds |-> SelectSeq(q[s], LAMBDA x : x # n)] /\ Stay(t, "auto.cont")
      ELSE /\ q' = q /\ ip' = ip /\ pc' = [pc EXCEPT ![t] = "fin"]           \* give up: the next() stays pending
   /\ lastEv' = <<>>
-  /\ UNCHANGED <<st, ev, cbk, src, top, bad, res, phase, effSets, values>>
-\* the continuation: stopCallback.reset(); try_reset()
+  /\ UNCHANGED <<st, ev, mtx, sec, todo, rv, cbk, cbExec, src, top, bad, res, phase, effSets, values, doneReq>>
+\* the continuation: stopCallback.reset() - waits while the callback is executing on another thread - ; try_reset()
 AutoCont(t, n) ==
-  /\ cbk' = [cbk EXCEPT ![n] = "gone"]
-  /\ IF st = "S"
-     THEN /\ st' = "U" /\ ev' = (IF ev = SIG THEN 0 ELSE ev) /\ res' = [res EXCEPT ![n] = 1] /\ values' = values + 1
-          /\ bad' = bad
-     ELSE /\ res' = [res EXCEPT ![n] = 2] /\ UNCHANGED <<st, ev, values>>
-          /\ bad' = IF st = "U" THEN "try_reset while unset" ELSE bad
-  /\ Advance(t) /\ lastEv' = <<Ev("Done", t, n, res'[n], SchedOf(n))>>
-  /\ UNCHANGED <<src, q, top, phase, effSets>>
+  /\ IF cbExec[n] \notin {0, t}
+     THEN Stay(t, "auto.dereg_wait") /\ UNCHANGED <<cbk, mtx, sec>>
+     ELSE cbk' = [cbk EXCEPT ![n] = "gone"] /\ TryLock(t, "reset")
+  /\ lastEv' = <<>>
+  /\ UNCHANGED <<st, ev, todo, rv, cbExec, src, q, top, bad, res, phase, effSets, values, doneReq>>
+DeregWait(t, n) ==
+  /\ cbExec[n] = 0
+  /\ cbk' = [cbk EXCEPT ![n] = "gone"] /\ TryLock(t, "reset") /\ lastEv' = <<>>
+  /\ UNCHANGED <<st, ev, todo, rv, cbExec, src, q, top, bad, res, phase, effSets, values, doneReq>>
 
 Step(t) ==
   /\ ~fin
@@ -123,10 +199,15 @@ Step(t) ==
            \/ o[1] = "setdone" /\ SetDoneOp(t)
            \/ o[1] = "stop" /\ StopOp(t, o[2])
            \/ o[1] = "next" /\ NextOp(t, o[2])
+     \/ pc[t] = "h.mtx" /\ MtxSpin(t)
+     \/ pc[t] = "h.lock" /\ Locked(t)
+     \/ pc[t] = "v1.set_pop" /\ SetPop(t)
+     \/ pc[t] = "h.unlock" /\ Unlocked(t)
      \/ pc[t] = "auto.wait" /\ AutoWait(t, Op(t)[2])
      \/ pc[t] = "v1.sow_cas" /\ SowCas(t, Op(t)[2])
      \/ pc[t] = "auto.await" /\ AutoAwait(t, Op(t)[2])
      \/ pc[t] = "auto.cont" /\ AutoCont(t, Op(t)[2])
+     \/ pc[t] = "auto.dereg_wait" /\ DeregWait(t, Op(t)[2])
   /\ wasDone' = (wasDone \/ st' = "D")
   /\ UNCHANGED <<scn, fin>>
 
@@ -137,12 +218,12 @@ Final ==
   /\ LET n == ev IN
      IF n \in Nexts /\ ~src[n]
      THEN /\ st' = "D" /\ ev' = SIG /\ src' = [src EXCEPT ![n] = TRUE] /\ cbk' = [cbk EXCEPT ![n] = "gone"]
-          /\ res' = [res EXCEPT ![n] = 2]
+          /\ res' = [res EXCEPT ![n] = 2] /\ doneReq' = TRUE
           /\ lastEv' = <<Ev("Quiesce", 0, 0, -1, 0), Ev("Stop", 0, n, -1, 0), Ev("Done", 0, n, 2, SchedOf(n))>>
-     ELSE /\ UNCHANGED <<st, ev, src, cbk, res>> /\ lastEv' = <<Ev("Quiesce", 0, 0, -1, 0)>>
+     ELSE /\ UNCHANGED <<st, ev, src, cbk, res, doneReq>> /\ lastEv' = <<Ev("Quiesce", 0, 0, -1, 0)>>
   /\ wasDone' = (wasDone \/ st' = "D")
   /\ fin' = TRUE /\ lastT' = 0 /\ lastPc' = "final"
-  /\ UNCHANGED <<scn, q, pc, ip, top, bad, phase, effSets, values>>
+  /\ UNCHANGED <<scn, mtx, sec, todo, rv, cbExec, q, pc, ip, top, bad, phase, effSets, values>>
 
 Next == \/ \E t \in Threads : Step(t) /\ lastT' = t /\ lastPc' = pc[t]
         \/ Final
@@ -159,11 +240,15 @@ NoAssertion == bad = "ok"
 EachSetToAtMostOneNext == values <= effSets + (IF scn.init = 1 THEN 1 ELSE 0)
 \* done is permanent
 DonePermanent == wasDone => st = "D"
-\* the inner event is signalled exactly when the state is not UNSET (outside the mutex-protected sections)
-InnerConsistent == (ev = SIG) <=> (st # "U")
+\* state_ and the inner event change atomically with respect to the mutex: whenever the mutex is free the inner event
+\* is signalled exactly when state_ is not UNSET
+InnerConsistentWhenFree == (mtx = 0) => ((ev = SIG) <=> (st # "U"))
+\* next() completes with done only after set_done() or a stop request
+DoneOnlyAfterDoneRequest == \A n \in Nexts : res[n] = 2 => doneReq
 \* a next() is pending at quiescence only if the event is unset
 NoStrandedNext == (AllFin /\ ~fin /\ \A s \in Scheds : q[s] = <<>>) => (ev \in Nexts => st = "U")
 NothingQueuedAtEnd == AllFin => \A s \in Scheds : q[s] = <<>>
+MutexFreeAtEnd == AllFin => mtx = 0
 AllCompleteAtEnd == fin => \A n \in Nexts : phase[n] = "started" => res[n] # 0
 Terminates == <>fin
 =============================================================================
